@@ -188,8 +188,9 @@ def arr_getitem(I, a: Arr, key, node):
     if isinstance(key, SliceV):
         if key.step is None or (isinstance(key.step, int) and key.step == 1):
             lo, hi = I.slice_bounds(key, a.n)
-            n = z3.If(hi > lo, hi - lo, z3.IntVal(0))
-            n = z3.simplify(n)
+            n = z3.simplify(z3.If(hi > lo, hi - lo, z3.IntVal(0)))
+            if not z3.is_int_value(n) and I.path.implied(hi >= lo):
+                n = z3.simplify(hi - lo)
             return Arr(n, lambda k, lo=lo: a.at(lo + k), a.kind, a.dtype)
         step = key.step
         if (isinstance(step, int) and step > 0) or is_z3(step):
